@@ -112,7 +112,7 @@ func c11R2(c *Ctx) {
 		switch {
 		case cal == spec:
 			firsts = append(firsts, cl)
-		case strings.HasPrefix(cal.Name(), "extract") || p.reachesAny(cal, func(f *ssa.Function) bool { return strings.HasPrefix(f.Name(), "extract") }) && cal.Signature.Results().Len() == 0:
+		case strings.HasPrefix(fnName(cal), "extract") || p.reachesAny(cal, func(f *ssa.Function) bool { return strings.HasPrefix(f.Name(), "extract") }) && cal.Signature.Results().Len() == 0:
 			others = append(others, cl)
 		}
 	}
@@ -162,7 +162,7 @@ func c11R2(c *Ctx) {
 			continue
 		}
 		d := p.ReachCond(b)
-		if d.Implies(func(a *Atom) bool { return a.Rel == "!=" && (a.L.Kind == "field" && a.L.Field.Name() == "tag" && a.R.Kind == "param" || a.R.Kind == "field" && a.R.Field.Name() == "tag" && a.L.Kind == "param") }) {
+		if d.Implies(func(a *Atom) bool { return a.Rel == "!=" && (a.L.Kind == "field" && cn(a.L.Field) == "tag" && a.R.Kind == "param" || a.R.Kind == "field" && cn(a.R.Field) == "tag" && a.L.Kind == "param") }) {
 			if len(r.Results) == 2 && !p.Origin(r.Results[1]).IsNil() {
 				okSpec = true
 			}
@@ -198,7 +198,7 @@ func c11R3(c *Ctx) {
 	if isLen9(other) {
 		other = p.Origin(cmp.Y)
 	}
-	accum := other.Mentions(func(x *Org) bool { return x.IsCallTo("(TagValue).length") })
+	accum := p.DeepMentions(other, func(x *Org) bool { return x.IsCallTo("(TagValue).length") })
 	c.Check(accum, name, p.InstrPos(cmp), "length-operand", "compared value accumulates TagValue.length() of the parsed fields", "BodyLength(9) is compared with "+other.String()+", not with the accumulated field lengths")
 	// an error store under the mismatch
 	found := false
@@ -306,7 +306,7 @@ func c11R5(c *Ctx) {
 		h := p.Func(modPath, hn)
 		for _, cs := range p.CallsTo(h) {
 			ao := p.Origin(cs.Common().Args[1])
-			ok := ao.Kind == "field" && strings.Contains(strings.ToLower(ao.Field.Name()), "transport") || ao.IsNil() || ao.Kind == "param"
+			ok := ao.Kind == "field" && strings.Contains(strings.ToLower(cn(ao.Field)), "transport") || ao.IsNil() || ao.Kind == "param"
 			c.Check(ok, FuncName(cs.Fn), p.InstrPos(cs.Call), "classifier-dictionary:"+hn, hn+" consulted with the transport dictionary", hn+" is called with "+ao.String()+" instead of the transport dictionary: a header/trailer field defined only there would be filed under the body")
 		}
 	}
